@@ -580,6 +580,73 @@ fn c09_layouts<S: ShortGroupSignatureScheme + 'static>(em: &mut Emitter, rng: &m
     }
 }
 
+/// identical signed values in different representations (text vs bytes with another print flag, number vs the
+/// scalar of that number, claims of different schemas): the honest holder must succeed — equality is about the
+/// signed value
+fn c09_representations<S: ShortGroupSignatureScheme + 'static>(em: &mut Emitter, rng: &mut Rng, suite: &str) {
+    use credx::credential::{ClaimSchema, CredentialSchema};
+    use credx::issuer::Issuer;
+    let schema_b = |second: ClaimType, pf: bool| {
+        CredentialSchema::new(
+            Some("verif-b"),
+            None,
+            &[],
+            &[
+                ClaimSchema { claim_type: ClaimType::Revocation, label: "id".into(), print_friendly: false, validators: vec![] },
+                ClaimSchema { claim_type: second, label: "value".into(), print_friendly: pf, validators: vec![] },
+                ClaimSchema { claim_type: ClaimType::Hashed, label: "other".into(), print_friendly: true, validators: vec![] },
+            ],
+        )
+        .unwrap()
+    };
+    let n = NumberClaim::from(rng.range(-1000, 1000) as isize);
+    let mut bytes_claim = HashedClaim::from("Alice Example".as_bytes().to_vec());
+    bytes_claim.print_friendly = false;
+    let cases: Vec<(&str, ClaimType, bool, ClaimData, ClaimType, bool, ClaimData)> = vec![
+        ("text-vs-bytes", ClaimType::Hashed, true, HashedClaim::from("Alice Example").into(), ClaimType::Hashed, false, bytes_claim.into()),
+        ("number-vs-scalar", ClaimType::Number, true, n.clone().into(), ClaimType::Scalar, false, ScalarClaim::from(n.to_scalar()).into()),
+        ("same-representation", ClaimType::Number, true, n.clone().into(), ClaimType::Number, true, n.clone().into()),
+    ];
+    for (name, ta, pfa, ca, tb, pfb, cb) in cases {
+        let (pa, mut ia) = Issuer::<S>::new(&schema_b(ta, pfa));
+        let (pb, mut ib) = Issuer::<S>::new(&schema_b(tb, pfb));
+        let ba = ia.sign_credential(&[RevocationClaim::from("rep-a").into(), ca.clone(), HashedClaim::from("x").into()]);
+        let bb = ib.sign_credential(&[RevocationClaim::from("rep-b").into(), cb.clone(), HashedClaim::from("y").into()]);
+        let (ba, bb) = match (ba, bb) {
+            (Ok(a), Ok(b)) => (a, b),
+            _ => {
+                em.count("representations:issuance-failed");
+                continue;
+            }
+        };
+        if ca.to_scalar() != cb.to_scalar() {
+            em.count("representations:scalars-differ");
+            continue;
+        }
+        let _ = (&pa, &pb);
+        let sa = SignatureStatement { disclosed: Default::default(), id: "sa".to_string(), issuer: ba.issuer.clone() };
+        let sb = SignatureStatement { disclosed: Default::default(), id: "sb".to_string(), issuer: bb.issuer.clone() };
+        let mut m = IndexMap::new();
+        m.insert("sa".to_string(), 1usize);
+        m.insert("sb".to_string(), 1usize);
+        let eq = EqualityStatement { id: "eq".to_string(), ref_id_claim_index: m };
+        let schema = PresentationSchema::new_with_id(&[sa.into(), sb.into(), eq.into()], "rep");
+        let mut creds: IndexMap<String, credx::presentation::PresentationCredential<S>> = IndexMap::new();
+        creds.insert("sa".to_string(), ba.credential.clone().into());
+        creds.insert("sb".to_string(), bb.credential.clone().into());
+        let nonce = rng.bytes(16);
+        em.oracle_case(&format!("{} representations {}", suite, name));
+        let ok = match call(|| Presentation::create(&creds, &schema, &nonce)) {
+            Out::Ok(p) => call(|| p.verify(&schema, &nonce)).is_ok(),
+            _ => false,
+        };
+        em.count(&format!("representations:{}:{}", name, ok));
+        if !ok {
+            em.violation("c09:equal-values-rejected:representation", format!("{}: identical signed values in two representations ({}) are not accepted by an honest create / verify", suite, name), json!({"suite": suite, "case": name, "a": serde_json::to_value(&ca).unwrap_or_default(), "b": serde_json::to_value(&cb).unwrap_or_default()}));
+        }
+    }
+}
+
 pub fn gen_c09(em: &mut Emitter, rng: &mut Rng) {
     em.rule = "2..3 credentials from different issuers, equality over a hashed / number / scalar claim position, equal and unequal values (incl. scalars \
                differing only above bit 64), with and without a commitment on the same claim: honest runs (accepted iff equal); deviating holder with \
@@ -594,6 +661,12 @@ pub fn gen_c09(em: &mut Emitter, rng: &mut Rng) {
     }
     if em.mine(base + 1) {
         c09_layouts::<Ps>(em, &mut rng.sub(9002), "ps");
+    }
+    if em.mine(base + 2) {
+        c09_representations::<Bbs>(em, &mut rng.sub(9005), "bbs");
+    }
+    if em.mine(base + 3) {
+        c09_representations::<Ps>(em, &mut rng.sub(9006), "ps");
     }
     // completeness half: honest holders with identical values under overlapping / bridging equality statements
     crate::c03::equality_graphs::<Bbs>(em, &mut rng.sub(9003), "bbs");
